@@ -331,6 +331,67 @@ theorem gumbel_branch_logsurv {x μ l α : ℝ} (hg : |l * (x - μ) * α| < 1e-1
     linarith
   · simp; norm_num
 
+/-- `log(1+u) ≈ u`: error at most `2u²` for `|u| ≤ 1/2` -/
+theorem log_one_add_approx {u : ℝ} (hu : |u| ≤ 1 / 2) : |log (1 + u) - u| ≤ 2 * u ^ 2 := by
+  have hu' := abs_le.mp hu
+  have hpos : 0 < 1 + u := by linarith
+  have hup : log (1 + u) ≤ (1 + u) - 1 := log_le_sub_one_of_pos hpos
+  have hlo : 1 - (1 + u)⁻¹ ≤ log (1 + u) := one_sub_inv_le_log_of_pos hpos
+  have hinv : (1 + u)⁻¹ ≤ 1 - u + 2 * u ^ 2 := by
+    rw [inv_le_iff_one_le_mul₀ hpos]; nlinarith [sq_nonneg u, hu'.1, hu'.2]
+  rw [abs_le]; constructor <;> nlinarith [sq_nonneg u]
+
+/-- Inside the Gumbel branch (`|α y| < 1e-12`, `α ≠ 0`) the exponent the GEV prescribes, `log(1+αy)/α`, is within
+    `2e-12·|y|` of the `y` the code uses. -/
+theorem gumbel_branch_exponent {y α : ℝ} (hα : α ≠ 0) (hg : |y * α| < 1e-12) :
+    |log (1 + α * y) / α - y| ≤ 2e-12 * |y| := by
+  have hu : |α * y| ≤ 1 / 2 := by rw [mul_comm]; linarith
+  have h := log_one_add_approx hu
+  have e : log (1 + α * y) / α - y = (log (1 + α * y) - α * y) / α := by field_simp
+  rw [e, abs_div]
+  rw [div_le_iff₀ (abs_pos.mpr hα)]
+  have h2 : 2 * (α * y) ^ 2 = 2 * |α * y| * |y| * |α| := by
+    rw [← sq_abs (α * y), abs_mul]; ring
+  have h3 : |α * y| < 1e-12 := by rw [mul_comm]; exact hg
+  have : 2 * |α * y| * |y| * |α| ≤ 2e-12 * |y| * |α| := by
+    have := mul_nonneg (abs_nonneg y) (abs_nonneg α)
+    nlinarith [abs_nonneg y, abs_nonneg α, abs_nonneg (α * y)]
+  linarith
+
+/-- **Gumbel-vs-GEV distance inside the Gumbel branch**, log cdf: the code returns the Gumbel value `-e^{-y}`; the GEV
+    with the actual `α ≠ 0` has `log cdf = -e^{-s}`, `s = log(1+αy)/α`; they differ by at most `4e-12·|y|·e^{-y}`
+    (relative `4e-12·|y|`), for `|y| ≤ 1e11`. -/
+theorem gumbel_branch_logcdf_dist {x μ l α : ℝ} (hα : α ≠ 0) (hg : |l * (x - μ) * α| < 1e-12) (hy : |l * (x - μ)| ≤ 1e11) :
+    |esl_gev_logcdf x μ l α - log (gevCdf μ l α x)| ≤ 4e-12 * |l * (x - μ)| * exp (-(l * (x - μ))) := by
+  set y := l * (x - μ) with hyd
+  have hu : |α * y| < 1e-12 := by rw [mul_comm]; exact hg
+  have harg : 0 < gevArg μ l α x := by
+    unfold gevArg; have := (abs_lt.mp hu).1; norm_num at this; linarith
+  rw [gumbel_branch_logcdf hg]
+  unfold esl_gumbel_logcdf gevCdf
+  simp only [num_exp]
+  rw [if_neg (not_le.mpr harg), log_exp]
+  have e0 : gevArg μ l α x = 1 + α * y := rfl
+  rw [e0]
+  set d := log (1 + α * y) / α - y with hd
+  have hdb : |d| ≤ 2e-12 * |y| := gumbel_branch_exponent hα hg
+  have hd1 : |d| ≤ 1 := by nlinarith [abs_nonneg y]
+  have e1 : -(log (1 + α * y) / α) = -y + -d := by rw [hd]; ring
+  rw [e1, exp_add]
+  have e2 : -exp (-y) - -(exp (-y) * exp (-d)) = exp (-y) * (exp (-d) - 1) := by ring
+  rw [e2, abs_mul, abs_of_pos (exp_pos _)]
+  have h3 := Real.abs_exp_sub_one_sub_id_le (x := -d) (by rwa [abs_neg])
+  have h4 : |exp (-d) - 1| ≤ |d| + d ^ 2 := by
+    have : exp (-d) - 1 = (exp (-d) - 1 - -d) + -d := by ring
+    rw [this]
+    refine le_trans (abs_add_le _ _) ?_
+    rw [abs_neg]; have : (-d) ^ 2 = d ^ 2 := by ring
+    linarith [this ▸ h3]
+  have h5 : d ^ 2 ≤ |d| := by rw [← sq_abs]; nlinarith [abs_nonneg d]
+  have h6 : |exp (-d) - 1| ≤ 4e-12 * |y| := by linarith
+  calc exp (-y) * |exp (-d) - 1| ≤ exp (-y) * (4e-12 * |y|) := mul_le_mul_of_nonneg_left h6 (exp_pos _).le
+    _ = 4e-12 * |y| * exp (-y) := by ring
+
 theorem gumbel_branch_invcdf {p μ l α : ℝ} (hα : |α| < 1e-12) : esl_gev_invcdf p μ l α = esl_gumbel_invcdf p μ l := by
   unfold esl_gev_invcdf esl_gumbel_invcdf
   simp only [num_exp, num_log, num_fabs]
